@@ -889,8 +889,19 @@ def _c05_cases(tier, rng):
               {"type": "Rect", "x": 0.0, "y": 0.0, "w": 10.0, "h": 5.0, "rx": 2.0, "ry": 1.0},
               {"type": "Rect", "x": -7.0, "y": 3.0, "w": 4.0, "h": 40.0, "rx": 2.0, "ry": 20.0},
               {"type": "Rect", "x": 1.0, "y": 1.0, "w": 3.0, "h": 2.0, "rx": 0.0, "ry": 0.0}]
+    # a rotation followed by an anisotropic scale has orthogonal rows and non-orthogonal columns, the opposite order
+    # orthogonal columns and non-orthogonal rows: the two cases in which "are the images of the radii orthogonal" and
+    # its transposed look-alike differ
+    ms2 = list(ms)
+    for ang in (30.0, -50.0, 75.0):
+        for sx, sy in ((2.0, 1.0), (1.0, 3.0), (-2.0, 0.5)):
+            sc = [sx, 0.0, 0.0, sy, 0.0, 0.0]
+            for m in (_compose(_rot(ang), sc), _compose(sc, _rot(ang))):
+                m = list(m)
+                m[4], m[5] = 7.5, -3.25
+                ms2.append(m)
     for sh in shapes:
-        for M in ms:
+        for M in ms2:
             for route in ("segments", "path"):
                 yield {"kind": "shape", "shape": sh, "M": M, "route": route}
 
@@ -898,7 +909,7 @@ def _c05_cases(tier, rng):
 _c05_replay = _make_replay(_c05_eval)
 
 
-@bounded("C05/endpoint_arcs", props=["C05", "C02"], replay=_c05_replay)
+@bounded("C05/endpoint_arcs", props=["C05", "C02", "C06"], replay=_c05_replay)
 def c05_endpoint_arcs(mod, tier, seed):
     t0 = time.time()
     rng = random.Random(seed)
